@@ -121,6 +121,9 @@ def cases(tier):
     for la, lb in [(0, 0), (1, 0), (0, 1), (1, 1), (2, 1), (1, 2)]:
         out.append(Block(la=la, lb=lb, Ka=2, Kb=1, Ma=1, Mb=2))
         out.append(Block(la=la, lb=lb, Ka=1, Kb=2, Ma=2, Mb=1))
+    # equal l and >= 2 columns on both sides (two different generalized shells of one type)
+    for l in (0, 1, 2):
+        out.append(Block(la=l, lb=l, Ka=1, Kb=2 if l < 2 else 1, Ma=2, Mb=2))
     out.append(Public(ls=[0, 1], types="cc", Ks=[2, 1], Ms=[1, 2]))
     out.append(Public(ls=[1, 0], types="cc", Ks=[1, 2], Ms=[2, 1]))
     out.append(Public(ls=[2], types="c", Ks=[2], Ms=[1]))
